@@ -381,3 +381,16 @@ def loop_early_exits(b, action_bb):
             continue
         out.append((src, dst))
     return out
+
+
+def body_with_call(fb, start_body, pat, depth=2):
+    """the body of start_body's region (itself, its closures, same-crate helpers it calls) that contains a call matching pat; start_body if none.
+    Keeps per-function rules valid across extract-method refactorings."""
+    if start_body is None:
+        return None
+    if start_body.calls(pat):
+        return start_body
+    for x in region(fb, start_body, depth):
+        if x is not start_body and x.calls(pat):
+            return x
+    return start_body
